@@ -114,3 +114,16 @@ def run(tier):
         if bad is not None:
             C.violation(oracle(f, bad), dict(unit='server_verification_utils', input=dict(challenge=bad)), key=f"challenge={bad}")
     return C.finish(search=search)
+
+
+def replay(path):
+    import json
+    r = json.load(open(path))
+    inp = r.get('input')
+    if not inp:
+        return replay_broken(r, 'C11')
+    s = Scratch()
+    mod = load_leaf(s.src, 'eolib.encrypt.server_verification_utils')
+    w = oracle(mod.server_verification_hash, inp['challenge'])
+    print("replay:", w or "property holds on this input")
+    return 1 if w else 0
